@@ -101,6 +101,10 @@ func init() {
 			w.Stats.Inc("bulk.empty")
 		}
 		w.result("bulk.arr %d", len(stream))
+		if st.End > 0 {
+			w.Stats.Inc("bulk.post-build-burst")
+			return extraOps["a.fill"](w, &Step{Op: "a.fill", C: st.CID, N: int(st.End), Sub: "mid", Pos: st.Pos*7919 + 13, V: &VSpec{S: &[2]int{900000 + int(st.Pos%1000)*300, 3 + int(st.Pos%17)}}})
+		}
 		return nil
 	}
 
@@ -196,6 +200,12 @@ func init() {
 		w.newRootFromLib(st, m, c)
 		w.Stats.Inc("bulk.map-built")
 		w.result("bulk.map %d", len(stream))
+		if st.End > 0 {
+			// a burst of insertions into the freshly built map, through the very handle the build returned (no
+			// reload in between): data slabs split under every index slab the build created
+			w.Stats.Inc("bulk.post-build-burst")
+			return extraOps["m.fill"](w, &Step{Op: "m.fill", C: st.CID, N: int(st.End), Pos: st.Pos*7919 + 13, V: &VSpec{S: &[2]int{900000 + int(st.Pos%1000)*300, 3 + int(st.Pos%17)}}})
+		}
 		return nil
 	}
 
@@ -341,6 +351,9 @@ func init() {
 		id := g.nextStr
 		g.nextStr += st.N
 		st.V = &VSpec{S: &[2]int{id, sz}}
+		if g.R.Chance(0.4) {
+			st.End = uint64(g.R.Range(20, 150)) // burst of insertions right after the build
+		}
 		return st, true
 	}
 	extraGens["bulk.map"] = func(g *Gen) (Step, bool) {
@@ -349,7 +362,11 @@ func init() {
 			return Step{}, false
 		}
 		t := g.genType()
-		return Step{Op: "bulk.map", C: c.CID, CID: g.cid(), T: &t, Sub: []string{"", "", "dup", "dup", "swap"}[g.R.Intn(5)], Pos: g.R.U64() % 100000}, true
+		st := Step{Op: "bulk.map", C: c.CID, CID: g.cid(), T: &t, Sub: []string{"", "", "dup", "dup", "swap"}[g.R.Intn(5)], Pos: g.R.U64() % 100000}
+		if g.R.Chance(0.5) {
+			st.End = uint64(g.R.Range(20, 150)) // burst of insertions right after the build
+		}
+		return st, true
 	}
 	extraGens["copy"] = func(g *Gen) (Step, bool) {
 		c := g.pickTarget(false, true)
